@@ -164,9 +164,14 @@ def sched_env(env):
 
 def for_paths(ctx, repo, name, fn):
     """run fn(agg_ctx, R, trace) on every path of scheduler `name`; returns number of paths."""
+    DROPPED.pop(name, None)
     paths, runs = all_paths(repo, name)
     key = f"{SCHED}::{name}"
     ctx.need(f"complete paths through {name}", len(paths), 1)
+    if DROPPED.get(name):
+        fn_ = repo.get(key)
+        ctx.unknown("paths-recognised", key, f"{len(DROPPED[name])} feasible paths return a plan whose per-bin fields are not recognised (first: [{DROPPED[name][0]}]): "
+                    "nothing is decided about the bins produced on them", repo.where(key, fn_))
     A = AggCtx(ctx)
     for trace, R in paths:
         fn(A, R, remap_trace(R, trace))
@@ -207,6 +212,9 @@ def remap_trace(R, trace):
     return out
 
 
+DROPPED = {}
+
+
 def all_paths(repo, name, max_paths=1500):
     """enumerate the decision tree of opaque branch conditions of one scheduler: [(trace, SchedRun)] for every
     complete path that returns a plan.  No feasibility reasoning beyond contradicting equalities."""
@@ -233,6 +241,8 @@ def all_paths(repo, name, max_paths=1500):
             f_ = R.field("f")
             if f_ is not None and not (isinstance(f_[1], X) and f_[1].iszero()):
                 out.append((list(trace), R))
+            elif f_ is None:
+                DROPPED.setdefault(name, []).append(path_text(tuple(trace))[:200])       # a plan is returned whose frequency field is not recognised
         k = len(trace) - 1
         while k >= 0 and trace[k][1] is False: k -= 1
         if k < 0: break
